@@ -761,7 +761,10 @@ def run(ctx):
                 "the implementation's ids, distinct objects sharing an id stay distinct on the model side); fresh or stale features "
                 "(sorted before in another order, garbage, sorted before with other costs by the same selector, sorted-written-read "
                 "back as new objects with the same ids); %d start-up scenarios each in its own fresh interpreter (seeds, algorithm "
-                "individuals, reloaded designs created block-wise); compared per individual: front_number, final domination_counter, "
+                "individuals, reloaded designs created block-wise); the sorter is built through every public construction "
+                "(TournamentSelector with and without dominance= ParetoDominance / EpsilonDominance and epsilons=, by keyword or "
+                "position, DummySelector, CopySelector, the selectors OMOPSO / SMPSO / PSOGA / NSGAII / EpsMOEA build for themselves), "
+                "one long-lived object per construction or a fresh one, in 30 %% of the cases after binary tournaments on it; compared per individual: front_number, final domination_counter, "
                 "dominate ids, and the fronts passed to crowding_distance; non-trivial = at least two members; distinct = distinct "
                 "ordered population") % (MARKERS, n_shuffles, len(plans))
     ctx.extra.update({"input_distribution": stats, "max_population_size": nmax})
